@@ -19,6 +19,7 @@ package simrt
 
 import (
 	"fmt"
+	"os"
 	"reflect"
 	"strings"
 	"sync"
@@ -61,20 +62,26 @@ type mapShadow struct {
 }
 
 type hbState struct {
-	clocks  map[any]vclock // release clocks per synchronisation object
-	rclocks map[any]vclock // read-unlock clocks of RW locks
-	global  vclock         // barrier releases: joined by every acquire
-	maps    map[unsafe.Pointer]*mapShadow
-	sent    map[any]bool // channels on which a simulated goroutine has sent or which it has closed
-	seen    map[string]bool
-	lockOff map[reflect.Type][]int
+	clocks    map[any]vclock // release clocks per synchronisation object
+	rclocks   map[any]vclock // read-unlock clocks of RW locks
+	global    vclock         // barrier releases: joined by every acquire
+	atomicAll vclock         // every release by an atomic operation (for operations whose variable is not known)
+	maps      map[unsafe.Pointer]*mapShadow
+	sent      map[any]bool // channels on which a simulated goroutine has sent or which it has closed
+	seen      map[string]bool
+	lockOff   map[reflect.Type][]int
 }
 
 // RaceBuild is set (by a file simify generates) when the build carries the happens-before calls around channel
 // operations and the map access reports; Config.Race has no effect otherwise.
 var RaceBuild bool
 
+var debugMap = os.Getenv("VERIF_DEBUG_MAP")
+
 type atomicKey struct{}
+
+// atomicVar keys the clock of one atomically accessed variable.
+type atomicVar struct{ p unsafe.Pointer }
 
 func (s *Sim) hbInit() {
 	if !RaceBuild || !s.cfg.Race {
@@ -112,8 +119,19 @@ func (s *Sim) hbAcquire(g *G, key any) {
 	if s.hb == nil || g == nil {
 		return
 	}
+	var before vclock
+	if debugMap != "" {
+		before = g.vc.clone()
+	}
 	g.vc = join(g.vc, s.hb.clocks[key])
 	g.vc = join(g.vc, s.hb.global)
+	if debugMap != "" {
+		for i := range g.vc {
+			if i != g.ID && g.vc[i] > before.at(i) {
+				g.dbgAcq = fmt.Sprintf("%s key=%T%v (g%d->%d)", g.site, key, key, i, g.vc[i])
+			}
+		}
+	}
 }
 
 func (s *Sim) hbAcquireR(g *G, key any) {
@@ -368,6 +386,12 @@ func mapAccessed(s *Sim, p unsafe.Pointer, keep func() any, write bool, pos stri
 		s.hb.maps[p] = sh
 	}
 	me := mapAccess{g: g.ID, epoch: g.vc.at(g.ID), pos: pos}
+	if debugMap != "" && strings.Contains(pos, debugMap) {
+		if f, err := os.OpenFile(fmt.Sprintf("/var/tmp/hbdebug.%d.log", os.Getpid()), os.O_APPEND|os.O_CREATE|os.O_WRONLY, 0o644); err == nil {
+			fmt.Fprintf(f, "HBDEBUG g%d write=%v pos=%s vc=%v lastw=%+v reads=%v lastacq=%s\n", g.ID, write, pos, g.vc, sh.write, sh.reads, g.dbgAcq)
+			f.Close()
+		}
+	}
 	unordered := func(a mapAccess) bool { return a.g != 0 && a.g != g.ID && a.epoch > g.vc.at(a.g) }
 	if unordered(sh.write) {
 		s.hbRace(sh.write, true, me, write)
